@@ -224,6 +224,19 @@ pub fn c05(v: &View) -> Vec<Violation> {
                     out.push(viol("c05.tp_block_malformed", "tp_parse", format!("{role:?} emitted a transport parameter block the reference parser rejects: {e}")));
                 }
             }
+            (Ok((entries, _)), true) => {
+                // byzantine (rewritten) block: only the one verdict both RFC 9000 7.4 and the
+                // decoder's own contract fix independently of the values - a parameter this
+                // implementation knows (ids 0x00..=0x10) that occurs twice is never a value
+                let mut ids: Vec<u64> = entries.iter().map(|e| e.id).filter(|id| *id <= 0x10).collect();
+                ids.sort_unstable();
+                let dup = ids.windows(2).find(|w| w[0] == w[1]).map(|w| w[0]);
+                if let (Some(id), Ok(())) = (dup, &real_ok) {
+                    if flagged.insert("tp_dup_accepted") {
+                        out.push(viol("c05.tp_decode_disagreement", "tp_dup_accepted", format!("{role:?} block (rewritten) repeats parameter {id:#x}: the reference parser rejects it, the real decoder returns a value")));
+                    }
+                }
+            }
             _ => {}
         }
     }
